@@ -65,12 +65,16 @@ func cmdRun(args []string) {
 	qtimeout := fs.Int("query-timeout-ms", 0, "per-query solver timeout")
 	inputsStr := fs.String("inputs", "", "run once with these input values (comma separated) and print the result")
 	itrace := fs.Bool("itrace", false, "with --inputs: print every instruction")
+	instr := fs.String("instrument", "", "comma separated module-relative files to compile against zzsync")
 	fs.Parse(args)
 
 	if p := os.Getenv("GOSYM_CPUPROF"); p != "" {
 		f, _ := os.Create(p)
 		pprof.StartCPUProfile(f)
 		defer pprof.StopCPUProfile()
+	}
+	if *instr != "" {
+		instrumentFiles = strings.Split(*instr, ",")
 	}
 	scratch, err := os.MkdirTemp("", "gosym-")
 	if err != nil {
